@@ -185,11 +185,14 @@ class Pipe:
 
         for cb, is_interest in self._event_callbacks[:]:
             keep_calling = cb(event)
-            if not keep_calling:
-                if self._event_callbacks is False:
-                    # All interest was just lost during the callback
-                    return
+            if self._event_callbacks is False:
+                # All interest was just lost during the callback (eg. the
+                # transport refused the message from inside send(), and the
+                # resulting error dispatch unregistered the handler); _end()
+                # has already run and called everyone with the tombstone
+                return
 
+            if not keep_calling:
                 self._event_callbacks.remove((cb, is_interest))
 
         if not self._any_interest():
